@@ -228,7 +228,7 @@ class SessionBuilder:
             hd = self.handle("T")
             self.add({"op": "parse", "c": deep, "h": hd})
             self.add({"op": "build", "h": hd, "path": ["B0", "B99999"], "s1": "id", "invalid": True})
-            self.add({"op": "single", "c": deep, "dets": [], "runs": [], "s1": "id"})
+            self.add({"op": "single", "c": deep, "dets": ["rekey-to", "can-close-account"], "runs": ["rekey-to", "can-close-account"], "s1": "id"})
             self.add({"op": "drop", "h": hd})
         return op
 
